@@ -146,10 +146,127 @@ mod imp {
         Ok(())
     }
 
+    /// structural match of a rule side against a term: pattern slots -> term slots (injective),
+    /// pattern binders -> term binders, variables -> subterms
+    fn pat_match(p: &Pat, t: &Tm, slotmap: &mut BTreeMap<S, S>, vars: &mut BTreeMap<u32, Tm>, bound: &mut Vec<(S, S)>, binder_names: &mut BTreeMap<S, S>) -> bool {
+        match p {
+            Pat::Var(v) => {
+                if let Some(old) = vars.get(v) {
+                    old.alpha_eq(t)
+                } else {
+                    vars.insert(*v, t.clone());
+                    true
+                }
+            }
+            Pat::Subst(..) => false,
+            Pat::Node { op, pay, slots, kids } => {
+                if *op != t.op || *pay != t.pay || slots.len() != t.slots.len() || kids.len() != t.kids.len() {
+                    return false;
+                }
+                for (ps, ts) in slots.iter().zip(t.slots.iter()) {
+                    if let Some((_, tb)) = bound.iter().rev().find(|(a, _)| a == ps) {
+                        if tb != ts {
+                            return false;
+                        }
+                    } else {
+                        if bound.iter().any(|(_, b)| b == ts) {
+                            return false;
+                        }
+                        match slotmap.get(ps) {
+                            Some(x) => {
+                                if x != ts {
+                                    return false;
+                                }
+                            }
+                            None => {
+                                if slotmap.values().any(|x| x == ts) {
+                                    return false;
+                                }
+                                slotmap.insert(*ps, *ts);
+                            }
+                        }
+                    }
+                }
+                for ((pb, pk), tk) in kids.iter().zip(t.kids.iter()) {
+                    if pb.len() != tk.binders.len() {
+                        return false;
+                    }
+                    let n = bound.len();
+                    for (a, b) in pb.iter().zip(tk.binders.iter()) {
+                        bound.push((*a, *b));
+                        binder_names.insert(*a, *b);
+                    }
+                    let ok = pat_match(pk, &tk.t, slotmap, vars, bound, binder_names);
+                    bound.truncate(n);
+                    if !ok {
+                        return false;
+                    }
+                }
+                true
+            }
+        }
+    }
+
+    fn inst_side(p: &Pat, slotmap: &BTreeMap<S, S>, vars: &BTreeMap<u32, Tm>, binder_names: &BTreeMap<S, S>, bound: &mut Vec<S>) -> Option<Tm> {
+        match p {
+            Pat::Var(v) => vars.get(v).cloned(),
+            Pat::Subst(..) => None,
+            Pat::Node { op, pay, slots, kids } => {
+                let mut sl = Vec::new();
+                for ps in slots {
+                    if bound.contains(ps) {
+                        sl.push(*binder_names.get(ps).unwrap_or(ps));
+                    } else {
+                        sl.push(*slotmap.get(ps)?);
+                    }
+                }
+                let mut ks = Vec::new();
+                for (pb, pk) in kids {
+                    let n = bound.len();
+                    bound.extend(pb.iter().copied());
+                    let t = inst_side(pk, slotmap, vars, binder_names, bound)?;
+                    bound.truncate(n);
+                    ks.push(Kid { binders: pb.iter().map(|b| *binder_names.get(b).unwrap_or(b)).collect(), t });
+                }
+                Some(Tm { op: *op, pay: *pay, slots: sl, kids: ks })
+            }
+        }
+    }
+
+    /// is (l, r) an instance of the rule lp => rp (in either orientation of the equation)?
+    fn is_rule_instance(lp: &Pat, rp: &Pat, c: &Eqn) -> bool {
+        for (a, b) in [(&c.0, &c.1), (&c.1, &c.0)] {
+            let mut slotmap = BTreeMap::new();
+            let mut vars = BTreeMap::new();
+            let mut names = BTreeMap::new();
+            if pat_match(lp, a, &mut slotmap, &mut vars, &mut Vec::new(), &mut names) {
+                if let Some(ri) = inst_side(rp, &slotmap, &vars, &names, &mut Vec::new()) {
+                    if ri.alpha_eq(b) {
+                        return true;
+                    }
+                }
+            }
+        }
+        false
+    }
+
+    /// entry point for other checks: re-checks `proof` and its conclusion against `query`.
+    /// Ok((proof nodes checked, leaves justified by a rule)) or Err((clause, message)).
+    pub fn check_proof(eg: &EGraph<LS, ()>, nm: &mut Naming, proof: &ProvenEq, asserted: &[(Tm, Tm, String)], rules: &[(Pat, Pat, String)], query: &Eqn) -> Result<(u64, u64), (String, String)> {
+        let mut ck = Checker { eg, nm, asserted, rules, memo: HashMap::new(), nodes: 0, rule_leaves: 0 };
+        let c = ck.check(proof).map_err(|m| ("proof_step_valid".to_string(), m))?;
+        if !match_pair(&c, query) && !match_pair(query, &c) {
+            return Err(("conclusion_is_query".to_string(), format!("the proof concludes {} = {}", c.0, c.1)));
+        }
+        Ok((ck.nodes, ck.rule_leaves))
+    }
+
     struct Checker<'a> {
         eg: &'a EGraph<LS, ()>,
         nm: &'a mut Naming,
         asserted: &'a [(Tm, Tm, String)],
+        rules: &'a [(Pat, Pat, String)],
+        pub rule_leaves: u64,
         memo: HashMap<*const ProvenEqRaw, Eqn>,
         pub nodes: u64,
     }
@@ -196,7 +313,11 @@ mod imp {
                 }
                 Proof::Explicit(ExplicitProof(j)) => {
                     let j = j.clone().unwrap_or_default();
-                    let ok = self.asserted.iter().any(|(a, b, ja)| *ja == j && match_pair(&(a.clone(), b.clone()), &c));
+                    let mut ok = self.asserted.iter().any(|(a, b, ja)| *ja == j && (match_pair(&(a.clone(), b.clone()), &c) || match_pair(&(b.clone(), a.clone()), &c)));
+                    if !ok && self.rules.iter().any(|(lp, rp, jr)| *jr == j && is_rule_instance(lp, rp, &c)) {
+                        ok = true;
+                        self.rule_leaves += 1;
+                    }
                     if !ok {
                         return Err(format!("explicit step {} = {} with justification {j:?} is no instance of an asserted equation", c.0, c.1));
                     }
@@ -363,7 +484,7 @@ mod imp {
                         };
                         out.bump("proofs_requested");
                         let res = catch_op(|| {
-                            let mut ck = Checker { eg: &s.eg, nm: &mut s.nm, asserted: &asserted, memo: HashMap::new(), nodes: 0 };
+                            let mut ck = Checker { eg: &s.eg, nm: &mut s.nm, asserted: &asserted, rules: &[], memo: HashMap::new(), nodes: 0, rule_leaves: 0 };
                             let r = ck.check(&proof);
                             (r, ck.nodes)
                         });
